@@ -1,1 +1,48 @@
-fn main() {}
+//! C15 — TLS and WebSocket layers preserve the stream over any transport behaviour (DESIGN §3 C15).
+mod certs;
+mod mem;
+mod tls;
+mod ws;
+
+use vcore::{Part, Session};
+
+fn main() {
+    let mut s = Session::new();
+    let verif_dir = s.args.verif_dir.clone();
+    let _ = certs::acceptor(&verif_dir, certs::Backend::Rustls, false); // fail early (exit 2) when the fixtures are missing
+    let mut p = Part::new(
+        "C15",
+        "tls",
+        "case = {client/server back-end in {native-tls(OpenSSL), rustls(ring)}, each over the futures-io end of an in-memory duplex or over \
+         compio_io::compat::AsyncStream on its compio-style halves; TLS 1.2|1.3; 0-4 payload segments of 0-64 KiB (position coded) in either \
+         direction, written in generated write_all chunk sizes with optional flush per chunk, read with generated buffer sizes; turn taking or \
+         both directions at once over split halves; who closes first; poll order; per transport end: buffering (bytes visible only on \
+         flush) and cyclic schedules for read/write/flush calls of {byte limit 1..unlimited, Pending-then-wake after 0..4 harness steps}}. \
+         Oracle: both handshakes complete, every segment arrives unchanged in order exactly once, clean close seen by both, exact dead-lock \
+         detection (nobody runnable, no waker fired, nothing scheduled) and a call/step cap proportional to the wire bytes. \
+         Non-trivial = a flush-gated transport end, or a partial write and a pending read on one end during the handshake.",
+    );
+    p.quick_cases = 1200;
+    p.thorough_cases = 40_000;
+    p.threads = 4;
+    p.regressions = tls::regressions();
+    p.assumptions = vec![
+        "native-tls acceptors (OpenSSL mozilla_intermediate v4) stop at TLS 1.2, so TLS 1.3 is only reached with a rustls server",
+        "known shapes are avoided by construction (labelled known-shape-avoided:*) and reproduced by the three known-* regression cases",
+        "OpenSSL, rustls, futures-rustls, tungstenite internals are exercised but not modelled",
+    ];
+    let vd = verif_dir.clone();
+    s.run_part(p, tls::strategy(), move |c| tls::run(c, &vd));
+    let mut p = Part::new(
+        "C15",
+        "ws",
+        "case = {driver io-uring|poll; plain | TLS(native-tls) | TLS(rustls) under the WebSocket; tiny SO_SNDBUF on the client/server socket;          per direction a proxy schedule of {forward chunk 1..65535 bytes, stall 0..3 ms}; 0-7 steps {sender, Text|Binary 0-100 KiB | Ping | Pong          0-125 bytes}; who closes, with or without close frame}. compio_ws client and server run on one compio runtime over two Unix          socketpairs joined by a forwarding proxy thread. Oracle per step: the message read equals the message sent (in order, exactly          once), a Ping is answered by a Pong with its payload although the receiver never touches its stream again, the close frame is          seen by the peer and acknowledged, afterwards both sides report the normal end; a step that does not finish within the watchdog          is judged by the rescue rule (explicit flush of both streams delivers it => violation, else inconclusive).          Non-trivial = at least one message and the proxy really fragmented or stalled the byte stream.",
+    );
+    p.quick_cases = 400;
+    p.thorough_cases = 12_000;
+    p.threads = 4;
+    p.max_shrink_iters = 6;
+    let vd = verif_dir.clone();
+    s.run_part(p, ws::strategy(), move |c| ws::run(c, &vd));
+    s.finish();
+}
